@@ -381,6 +381,47 @@ def edit_mode_sequences(R, rng, tier):
                 R.fail("edit-mode|%s|%s" % (ok[0], '+'.join(sorted(set(seq)))), ok[1], None)
 
 
+def replace_by_similar_states(R):
+    """a selection replaced by another one that differs in a single operand (a number where the old one had an attribute, or the reverse)
+    is the new selection afterwards - through the replace edit mode, through a subset of the group and through the group itself"""
+    from glue.core import DataCollection
+    from glue.core import edit_subset_mode as M
+    import operator as op
+    from glue.core.subset import InequalitySubsetState, RangeSubsetState
+    for how in ('replace-mode', 'subset', 'group'):
+        d = datasets()[0]
+        x, y = d.id['x'], d.id['y']
+        vx, vy = np.asarray(d[x], float), np.asarray(d[y], float)
+        with np.errstate(invalid='ignore'):
+            chain = [('x>1.5', lambda: x > 1.5, vx > 1.5), ('x>y', lambda: x > y, vx > vy), ('x>2', lambda: x > 2, vx > 2), ('y<=x', lambda: y <= x, vy <= vx), ('y<=4', lambda: y <= 4, vy <= 4),
+                     ('y<=x again', lambda: y <= x, vy <= vx), ('range x 1..3', lambda: RangeSubsetState(1, 3, x), (vx >= 1) & (vx <= 3)), ('range x 1..5', lambda: RangeSubsetState(1, 5, x), (vx >= 1) & (vx <= 5)),
+                     ('2.5<x', lambda: InequalitySubsetState(2.5, x, op.lt), 2.5 < vx), ('y<x', lambda: InequalitySubsetState(y, x, op.lt), vy < vx)]
+        dc = DataCollection([d])
+        g = dc.new_subset_group('g', chain[0][1]())
+        esm = M.EditSubsetMode()
+        esm.data_collection = dc
+        esm.edit_subset = [g]
+        prev = chain[0][0]
+        prev_ref = np.asarray(chain[0][2], bool)
+        for name, mk, ref in chain[1:]:
+            st = mk()
+            if how == 'replace-mode':
+                esm.update(dc, st, override_mode=M.ReplaceMode)
+            elif how == 'subset':
+                g.subsets[0].subset_state = st
+            else:
+                g.subset_state = st
+            got = np.asarray(g.subsets[0].to_mask())
+            assert not np.array_equal(np.asarray(ref, bool), prev_ref), "driver: consecutive selections of the chain must select different elements"
+            prev_ref = np.asarray(ref, bool)
+            R.count(('replace-similar', how, prev, name), 'edit-mode-sequences')
+            if not np.array_equal(got, np.asarray(ref, bool)):
+                R.fail("edit-mode|replace-by-similar-state|%s" % how, "selection %s replaced by %s through the %s: the subset selects %s, the new selection selects %s"
+                       % (prev, name, how, got.astype(int).tolist(), np.asarray(ref, bool).astype(int).tolist()), None)
+                break
+            prev = name
+
+
 def edit_modes_on_untouched_group(R):
     """a subset group that was created without a selection (new_subset_group()) is the empty selection: and / and-not keep it empty,
     or / xor / replace give the new selection"""
@@ -471,4 +512,5 @@ def run(tier, seed, R):
             one(d, rnd(rng.randint(2, maxd)), 'random')
     edit_mode_sequences(R, rng, tier)
     edit_modes_on_untouched_group(R)
+    replace_by_similar_states(R)
     R.samples.append({"tree": "d1: ((range&~circle)|multi(category,gt,slice)) - every node compared with the element-wise reference, twice, permuted order"})
